@@ -60,6 +60,13 @@ const linPrelude = `access(all) resource R { access(all) fun foo() {} }
 access(all) fun consumeR(_ r: @R) { destroy r }
 access(all) fun consumeO(_ r: @R?) { destroy r }
 access(all) fun consumeA(_ r: @[R]) { destroy r }
+access(all) fun consumeBR(_ r: @R): Bool { destroy r; return true }
+access(all) fun consumeBO(_ r: @R?): Bool { destroy r; return true }
+access(all) fun consumeBA(_ r: @[R]): Bool { destroy r; return true }
+access(all) fun consumeIR(_ r: @R): Int { destroy r; return 1 }
+access(all) fun consumeIO(_ r: @R?): Int { destroy r; return 1 }
+access(all) fun consumeIA(_ r: @[R]): Int { destroy r; return 1 }
+access(all) fun optInt(): Int? { return nil }
 access(all) fun refR(_ r: &R) {}
 access(all) fun refO(_ r: &R?) {}
 access(all) fun refA(_ r: &[R]) {}
@@ -137,6 +144,19 @@ func (r *linRenderer) block(ss []LStmt, ind string) {
 			r.line(ind, "destroy %s", s.X)
 		case "consume":
 			r.line(ind, "consume%s(<-%s)", kindSuffix(s.K), s.X)
+		case "cmove":
+			// a move inside an operand that is evaluated conditionally
+			r.n++
+			switch s.Form {
+			case "or":
+				r.line(ind, "let b%d = cond() || consumeB%s(<-%s)", r.n, kindSuffix(s.K), s.X)
+			case "coal":
+				r.line(ind, "let n%d = optInt() ?? consumeI%s(<-%s)", r.n, kindSuffix(s.K), s.X)
+			case "cond":
+				r.line(ind, "let n%d = cond() ? consumeI%s(<-%s) : 0", r.n, kindSuffix(s.K), s.X)
+			default:
+				r.line(ind, "let b%d = cond() && consumeB%s(<-%s)", r.n, kindSuffix(s.K), s.X)
+			}
 		case "use":
 			switch {
 			case s.Form == "ref":
